@@ -704,7 +704,7 @@ x
             who = newdist < dist[l]
             for  z in zip(newdist[who], l[who]):
                 heapq.heappush(dg, z)
-            dist[l[who]] = newdist[who]
+            np.minimum.at(dist, l[who], newdist[who])
         return dist
 
     def compact_neighb(self):
